@@ -151,8 +151,18 @@ def check_frame(case):
         b2 = gd.xyz2enu(S.obj_dec(la_), S.obj_dec(lo_), v[0], v[1], v[2])
         if not float(np.abs(np.array(b1, dtype=float) - np.array(b2, dtype=float)).max()) <= 4e-15 * nv + 1e-300:
             raise Fail("xyz2enu with angle objects differs from the call with their decimal values", expected=b2, observed=b1)
+        # the position by keyword, the vector by position (and everything by keyword)
+        for form, k1 in (("lat / lon by keyword", gd.xyz2enu(x=v[0], y=v[1], z=v[2], lat=la_, lon=lo_)),
+                         ("lon before lat by keyword", gd.xyz2enu(lon=lo_, lat=la_, x=v[0], y=v[1], z=v[2]))):
+            if not float(np.abs(np.array(k1, dtype=float) - np.array(b2, dtype=float)).max()) <= 4e-15 * nv + 1e-300:
+                raise Fail("xyz2enu with angle objects given %s differs from the positional call with their decimal values" % form,
+                           expected=b2, observed=k1, bucket="xyz2enu call form")
         a1 = gd.enu2xyz(la_, lo_, v[0], v[1], v[2])
         a2 = gd.enu2xyz(S.obj_dec(la_), S.obj_dec(lo_), v[0], v[1], v[2])
+        k2 = gd.enu2xyz(lat=la_, lon=lo_, east=v[0], north=v[1], up=v[2])
+        if not float(np.abs(np.array(k2, dtype=float) - np.array(a2, dtype=float)).max()) <= 4e-15 * nv + 1e-300:
+            raise Fail("enu2xyz with angle objects given by keyword differs from the positional call with their decimal values",
+                       expected=a2, observed=k2, bucket="enu2xyz call form")
         if not float(np.abs(np.array(a1, dtype=float) - np.array(a2, dtype=float)).max()) <= 4e-15 * nv + 1e-300:
             raise Fail("enu2xyz with angle objects differs from the call with their decimal values", expected=a2, observed=a1)
 
